@@ -178,6 +178,7 @@ func registerVerifrt(m map[string]modelFn) {
 	m["verifrt.Reach"] = func(fr *frame, a []Value) Value {
 		lbl, _ := a[0].(Str).Concrete()
 		fr.e.Reach[lbl]++
+		fr.e.pathReach = append(fr.e.pathReach, lbl)
 		return nil
 	}
 	m["verifrt.Event"] = func(fr *frame, a []Value) Value {
